@@ -56,4 +56,12 @@ theorem C17_glr_model_forest_prefix_sound (g : Grammar) (T : Table) (inp : Input
     IsPrefixParseOf g inp t :=
   (GLR.parseGLR_forest_sound hw hidem consume lexDis fuel sF h a ha l hl t ht).1
 
+/-- The executable form used on implementation trees: a tree that the driver finds in the packed
+forest of the model's run with `consume_input` off derives a prefix of the input. -/
+theorem C17_tree_found_in_glr_model_forest_is_prefix_parse (g : Grammar) (T : Table) (inp : Input)
+    (hw : T.wf g = true) (hidem : ∀ p, inp.skip (inp.skip p) = inp.skip p) (consume lexDis : Bool) (fuel : Nat)
+    (sF : GLR.GState) (h : GLR.parseGLR g T inp consume lexDis fuel = .forest sF) (t : Tree)
+    (ht : GLR.forestHasTree sF t = true) : IsPrefixParseOf g inp t :=
+  (GLR.forestHasTree_parse hw hidem consume lexDis fuel sF h t ht).1
+
 end Pg
